@@ -47,6 +47,13 @@ Definition run_C20 (i : term) : term :=
     TL [TZ (Z.of_nat (List.length ok)); TZ (sumZ ok); TZ 1]
   else if String.eqb op "web" then
     TL [of_zs (repeat 1 (Z.to_nat (gz (gn i 1))))]
+  else if String.eqb op "fields" then
+    (* configure is one critical section (option_ops_are_atomic) that changes only its own field, and
+       every interleaving equals a sequential order of whole operations (atomic_ops_linearizable):
+       whatever that order, no other thread's operation touches field i, so each read-back and the
+       final value of field i are thread i's last written value *)
+    let r := Z.to_nat (gz (gn i 2)) in
+    TL [TL (map (fun _ => of_zs (repeat 1 r)) (gl (gn i 1))); of_zs (map (fun _ => 1) (gl (gn i 1)))]
   else if String.eqb op "cow" then TZ 1
   else TL [TS "unknown-op"].
 
@@ -69,6 +76,7 @@ Definition spec_C20 (i o : term) : bool :=
   else if String.eqb op "once" then term_eqb (run_C20 i) o      (* every caller sees the one base *)
   else if String.eqb op "settings" then term_eqb (run_C20 i) o  (* no lost update, no stray temp file *)
   else if String.eqb op "fetch" then term_eqb (run_C20 i) o
+  else if String.eqb op "fields" then term_eqb (run_C20 i) o     (* no lost update: every field holds what its owner wrote *)
   else if String.eqb op "web" then all_equal_seq (gzs (gn o 0)) (gz (gn i 1))
   else true.
 
